@@ -143,7 +143,7 @@ func init() {
 		Technique: "deterministic simulation of call histories: seeded sequences of API calls and caller-side field updates on long-lived recipes and word lists, each call on its own scripted tape; deep snapshots before/after and comparison with the same call on a fresh value in isolation; whole episode executed twice",
 		Rule:      "case = one API call inside a history; distinct by hash of (history prefix, call); non-trivial = the call is preceded by at least one other call or field update on the same pool",
 		Assumptions: []string{"the package knobs MaxTrials/MaxFailRate count as part of the current configuration (the isolated reference call runs under the same knob values)", "stateful separator closures written by the caller are excluded (only pure ones are used)"},
-		Episodes:    map[string]int{"quick": 12000, "thorough": 150000},
+		Episodes:    map[string]int{"quick": 12000, "thorough": 1200000},
 		TwiceEvery:  3,
 		Real:        []string{"CharRecipe/WLRecipe Generate, Entropy, Alphabet, SuccessProbability, Size", "NewWordList", "separator presets / NewSFFunction"},
 		Simulated:   []string{"call history and field updates", "crypto/rand.Reader (one scripted tape per call)", "alphabet / word index orders (H2/H3), visit order (H4)"},
